@@ -59,7 +59,7 @@ KIND = {'RefLine': 'line', 'RefTri': 'tri', 'RefQuad': 'quad', 'RefTet': 'tet', 
         'RefWedge': 'wedge'}
 
 # elements that are only defined on axis-aligned (rectangular / box) cells
-AXIS_ALIGNED_ONLY = {'ElementQuadBFS', 'ElementHexC1'}
+AXIS_ALIGNED_ONLY = {'ElementQuadBFS', 'ElementHexC1', 'ElementQuad2G'}
 
 
 class Entry:
